@@ -8,6 +8,7 @@ import (
 	"os"
 	"path/filepath"
 	"strconv"
+	"strings"
 	"sync"
 	"syscall"
 	"time"
@@ -40,6 +41,9 @@ type DiskWriter struct {
 	egCtx       context.Context
 	filter      FilterFunc
 	dirModTimes map[string]int64
+	// filteredDir is the directory (with trailing separator) that the filter
+	// rejected most recently and whose entries are being handled
+	filteredDir string
 
 	// modeMu keeps the "make writable and open" step of a content writer
 	// apart from metadata updates that reach the same inode through another
@@ -138,7 +142,24 @@ func (dw *DiskWriter) HandleChange(kind ChangeKind, p string, fi os.FileInfo, er
 
 	if dw.filter != nil {
 		if ok := dw.filter(p, statCopy); !ok {
+			if fi.IsDir() && (dw.filteredDir == "" || !strings.HasPrefix(p, dw.filteredDir)) {
+				dw.filteredDir = p + string(filepath.Separator)
+			}
 			return nil
+		}
+		if dw.filteredDir != "" {
+			if !strings.HasPrefix(p, dw.filteredDir) {
+				dw.filteredDir = ""
+			}
+			// p lies below a directory that the filter left out: that
+			// directory was announced but not written, what sits at its name
+			// may be an older symlink (or a file), and p would be created in
+			// the directory it points to
+			for dir := filepath.Dir(p); dw.filteredDir != "" && strings.HasPrefix(dir+string(filepath.Separator), dw.filteredDir); dir = filepath.Dir(dir) {
+				if dfi, err := os.Lstat(filepath.Join(dw.dest, dir)); err == nil && !dfi.IsDir() {
+					return errors.Errorf("invalid path %s below %s, which the filter left out and which is not a directory", p, dir)
+				}
+			}
 		}
 	}
 
